@@ -197,6 +197,19 @@ fn check_pvs(a: &mut Analysis, g: &GoRec) {
     }
 }
 
+/// C08-R1 second half: an iteration deeper than the limit may be *reported* (a cached deeper answer) but must not have
+/// been *searched*: it must not have made a single node poll.
+fn check_deeper_than_limit(a: &mut Analysis, g: &GoRec, n: u32) {
+    let mut prev_polls = 0u64;
+    for &(_, d, polls_at) in &g.infos {
+        if d > n && polls_at > prev_polls {
+            a.v("C08", "R1-searched-deeper-than-limit", g.cmd, format!("{}: the iteration reported as `info depth {}` expanded {} node(s) although the limit is {}", g.line, d, polls_at - prev_polls, n));
+            break;
+        }
+        prev_polls = polls_at;
+    }
+}
+
 fn parse_go(line: &str, g: &mut GoRec) {
     let mut t = line.split_ascii_whitespace();
     let (mut wt, mut bt, mut wi, mut bi) = (None, None, None, None);
@@ -538,6 +551,11 @@ pub fn analyse_session(case: &Case, out: &Outcome) -> Analysis {
                 }
             }
             EvK::MutexPoisoned => {}
+            EvK::Stall { why, jump_ns } => {
+                // the stdin loop can only proceed once a timer fires: until then no command (isready, quit, the next
+                // position/go) is answered, for as long as the time budget the GUI happened to give
+                a.v("C14", "R4-unresponsive", cmd_id, format!("while processing `{}` the stdin loop is blocked on {} and nothing can run until a timer fires {} ns later", cmd_line, why, jump_ns));
+            }
             EvK::JoinDone { .. } | EvK::Woke | EvK::Note { .. } => {}
         }
     }
@@ -580,6 +598,7 @@ pub fn analyse_session(case: &Case, out: &Outcome) -> Analysis {
         }
         // C08-R1 depth limit, R3 monotone depth
         if let Some(n) = g.depth {
+            check_deeper_than_limit(&mut a, g, n);
             if let Some(&(_, d, polls_at)) = g.infos.iter().find(|(_, d, _)| *d >= n) {
                 let end_polls = if g.n_best > 0 { g.best_polls } else { th.map_or(polls_at, |t| t.polls) };
                 if end_polls > polls_at {
@@ -827,6 +846,7 @@ pub fn analyse_direct(case: &Case, out: &Outcome) -> Analysis {
                                             a.v("C08", "R1-runs-past-depth-limit", idx as u32, format!("{}: after `info depth {}` the search expanded {} more node(s)", g.line, d, end_polls - polls_at));
                                         }
                                     }
+                                    check_deeper_than_limit(&mut a, &g, n);
                                 }
                                 for w in g.infos.windows(2) {
                                     if w[1].1 <= w[0].1 {
